@@ -18,7 +18,7 @@ from symx.runner import Acc
 from symx.selftest import sparse_selftest
 from harness.common import real_code, RealCodeRaised, bound, z, fval, sym_patterns, isclose
 from harness.geom import DirStub, position_spec
-from harness.fgstub import make_positiongrid
+from harness.fgstub import make_positiongrid, exercise_position_decoys, decoy_value_factory, float_decoy_values
 
 PROPERTY = "C05"
 FUNCTIONS = ["molgri.space.fullgrid.PositionGrid._get_N_N_position_array", "PositionGrid.get_all_position_volumes",
@@ -30,6 +30,7 @@ STUBS = ["direction grid (SphericalVoronoi/Qhull) -> DirStub: arbitrary areas, a
          "scipy.sparse coo_array/diags/bmat -> symx.sparse exact-order models", "np constructors -> object arrays"]
 ASSUMPTIONS = ["float modelled by the reals", "unit-sphere quantities are positive and symmetric on one pattern (that they are the true "
                "Voronoi quantities is C03, not applicable)", "radii strictly increasing and positive"]
+HISTORY = "other PositionGrid objects of the same process (collision twin, Cartesian twin) are built and queried before and after the construction of the grid under test"
 OUTSIDE = ["n_o, T beyond the bound", "the unit-sphere quantities themselves", "T=1 (see C19/C16)", "Cartesian mode (C06)"]
 
 
@@ -84,11 +85,17 @@ def run_shape(shape):
     o = DirStub(n_o, pattern, [SR(a) for a in area], {k: SR(v) for k, v in arc.items()}, {k: SR(v) for k, v in ang.items()},
                 sp, lambda l: sarr(l))
     proxy = NPProxy()
+    dv = decoy_value_factory(eng)
 
     def body():
         with bound(F, bmat=sp.bmat, coo_array=sp.coo_array, diags=sp.diags, print=noprint, np=proxy), \
                 bound(TR, np=proxy, print=noprint):
-            pg = make_positiongrid(F, TR, o, sarr([SR(x) for x in r]))
+            radii = sarr([SR(x) for x in r])
+            # other grids of the same process (a collision twin with other radii under the same name, a Cartesian twin under the same
+            # names): built and asked for everything BEFORE the grid under test exists and again AFTER its construction
+            exercise_position_decoys(F, TR, o, radii, sarr, dv, tag="A")
+            pg = make_positiongrid(F, TR, o, radii)
+            exercise_position_decoys(F, TR, o, radii, sarr, dv, tag="B")
             A, B, D = pg.get_adjacency_of_position_grid(), pg.get_borders_of_position_grid(), pg.get_distances_of_position_grid()
             A2 = pg._get_N_N_position_array("adjacency")
             return A, B, D, pg.get_all_position_volumes(), A2, len(pg)
@@ -152,7 +159,12 @@ def numeric_violations(shape, model):
     if any(x is None for x in r):
         r = list(np.cumsum([1.0 + 0.37 * k for k in range(n_t)]))
     o = DirStub(n_o, pattern, area, arc, ang, rsp, lambda l: np.array(l))
-    pg = make_positiongrid(F, TR, o, np.array(r, dtype=float))
+    dv = float_decoy_values()
+    mk = lambda l: np.array(l, dtype=float)
+    with contextlib.redirect_stdout(io.StringIO()):
+        exercise_position_decoys(F, TR, o, np.array(r, dtype=float), mk, dv, tag="A")
+        pg = make_positiongrid(F, TR, o, np.array(r, dtype=float))
+        exercise_position_decoys(F, TR, o, np.array(r, dtype=float), mk, dv, tag="B")
     with contextlib.redirect_stdout(io.StringIO()), real_code():
         A, B, D = pg.get_adjacency_of_position_grid(), pg.get_borders_of_position_grid(), pg.get_distances_of_position_grid()
         V = pg.get_all_position_volumes()
